@@ -40,13 +40,11 @@
 (*   <<0,0>>      the value present in the prior state                     *)
 (*   <<t,i>> <<t,i,j>> <<t,i,j,l>>  value written / event emitted by step  *)
 (***************************************************************************)
-EXTENDS Integers, Sequences, FiniteSets, TLC, Json
+EXTENDS TxExecMon, TLC, Json
 
 CONSTANTS
     NTx,          \* transactions per block (1..3)
     L1, L2, L3,   \* max number of steps of tx 1, 2, 3 (one more trailing "fail" may follow)
-    TopKeys,      \* keys used by top-level steps
-    SubKeys,      \* keys used by nested steps
     PriorKeys,    \* keys present (value <<0,0>>) in the prior state, for both contracts
     TopOps,       \* subset of {"put","del","get","rec","notify","clk"}
     SubOps,       \* same for nested scripts
@@ -63,11 +61,6 @@ CONSTANTS
 VARIABLES blk, wall, run, t, ov, res, memo, nondet
 vars == <<blk, wall, run, t, ov, res, memo, nondet>>
 
-NoEnt == <<>>
-Tomb  == <<0>>
-Old   == <<0, 0>>
-AllKeys  == TopKeys \cup SubKeys
-FullKeys == {1, 2} \X AllKeys
 Store == [fk \in FullKeys |-> IF fk[2] \in PriorKeys THEN Old ELSE Tomb]
 EmptyLayer == [fk \in FullKeys |-> NoEnt]
 
@@ -85,10 +78,6 @@ Alpha(ops, keys) ==
 Seqs(A, n) == UNION {[1..m -> A] : m \in 0..n}
 Ins(s, p, c) == SubSeq(s, 1, p - 1) \o <<c>> \o SubSeq(s, p, Len(s))
 
-\* canonical scripts: a step that certainly aborts the frame is the last one
-RECURSIVE Fails(_)
-Aborting(st) == st.op = "fail" \/ (st.op = "call" /\ ~st.catch /\ Fails(st.sub))
-Fails(s) == \E i \in 1..Len(s) : Aborting(s[i])
 Canonical(s) == \A i \in 1..(Len(s) - 1) : ~Aborting(s[i])
 NCalls(s) == Cardinality({i \in 1..Len(s) : s[i].op = "call"})
 
@@ -170,76 +159,6 @@ Digest(results, over) == [txs |-> [i \in 1..Len(results) |-> [ok |-> results[i].
                           xh  |-> Flat([i \in 1..Len(results) |-> results[i].xh]),
                           ws  |-> over]
 
-(* monitor C15: reference walk *********************************************)
-Range(s) == {s[i] : i \in 1..Len(s)}
-Resolve(e, store, fk) == IF e = NoEnt THEN store[fk] ELSE e
-\* M = [loc, nS, nA, xS, xA, rd, err]: possible entries per key as seen by the running transaction (cache over
-\* overlay), sure / all notifications in execution order, sure / all records, allowed values per read, error flag
-RECURSIVE RefSteps(_, _, _, _, _, _, _)
-RefSteps(c, steps, pre, i, M, store, w) ==
-    IF i > Len(steps) THEN M
-    ELSE LET st == steps[i]
-             id == Append(pre, i)
-             fk == <<c, st.k>>
-             go(M2) == RefSteps(c, steps, pre, i + 1, M2, store, w)
-         IN CASE st.op = "put"    -> go([M EXCEPT !.loc[fk] = {id}])
-              [] st.op = "del"    -> go([M EXCEPT !.loc[fk] = {Tomb}])
-              [] st.op = "get"    -> go([M EXCEPT !.rd = Append(@, [id |-> id, ok |-> {Resolve(e, store, fk) : e \in M.loc[fk]}])])
-              [] st.op = "rec"    -> go([M EXCEPT !.xS = @ \cup {id}, !.xA = @ \cup {id}])
-              [] st.op = "notify" -> go([M EXCEPT !.nS = Append(@, id), !.nA = Append(@, id)])
-              [] st.op = "fail"   -> [M EXCEPT !.err = TRUE]
-              [] st.op = "clk"    -> IF w >= st.n THEN go(M) ELSE [M EXCEPT !.err = TRUE]
-              [] st.op = "call"   -> LET R == RefSteps(2, st.sub, id, 1, M, store, w)
-                                     IN IF ~R.err THEN go(R)
-                                        ELSE IF ~st.catch THEN R
-                                        ELSE \* the callee failed and the caller goes on: its effects are unsure
-                                             go([loc |-> [k \in FullKeys |-> M.loc[k] \cup R.loc[k]],
-                                                 nS |-> M.nS, nA |-> R.nA, xS |-> M.xS, xA |-> R.xA, rd |-> R.rd, err |-> FALSE])
-RefTx(script, tx, poss, store, w) ==
-    RefSteps(1, script, <<tx>>, 1, [loc |-> poss, nS |-> <<>>, nA |-> <<>>, xS |-> {}, xA |-> {}, rd |-> <<>>, err |-> FALSE], store, w)
-\* reference results of transactions 1..n and the possible committed entries after them
-RECURSIVE RefBlock(_, _, _, _)
-RefBlock(b, n, store, w) ==
-    IF n = 0 THEN [txs |-> <<>>, poss |-> [fk \in FullKeys |-> {NoEnt}]]
-    ELSE LET P == RefBlock(b, n - 1, store, w)
-             R == RefTx(b[n], n, P.poss, store, w)
-         IN [txs |-> Append(P.txs, R), poss |-> IF R.err THEN P.poss ELSE R.loc]
-
-NoDup(s) == \A i, j \in 1..Len(s) : i # j => s[i] # s[j]
-Pos(s, x) == CHOOSE i \in 1..Len(s) : s[i] = x
-OrderedIn(a, b) == \A i, j \in 1..Len(a) : i < j => Pos(b, a[i]) < Pos(b, a[j])
-TxOf(v) == IF Len(v) >= 2 THEN v[1] ELSE 0
-If(c, e) == IF c THEN {e} ELSE {}
-
-\* obs = [txs |-> seq of [ok, nt, rd], xh |-> seq of ids, ws |-> [FullKeys -> entry]] for the executed prefix 1..n
-Violations15(b, n, store, w, obs) ==
-    LET Rf == RefBlock(b, n, store, w)
-        failed(x) == x \in 1..n /\ Rf.txs[x].err
-        XhOf(x) == SelectSeq(obs.xh, LAMBDA id : TxOf(id) = x)
-        perTx(x) ==
-            LET r == Rf.txs[x]
-                o == obs.txs[x]
-                xs == XhOf(x)
-            IN  If(o.ok = r.err, <<"status", x>>)
-                \cup (IF r.err
-                      THEN If(o.nt # <<>>, <<"failed-tx-notify", x>>) \cup If(xs # <<>>, <<"failed-tx-record", x>>)
-                      ELSE If(~(Range(r.nS) \subseteq Range(o.nt)), <<"success-notify-lost", x>>)
-                           \cup If(~(Range(o.nt) \subseteq Range(r.nA) /\ NoDup(o.nt)), <<"success-notify-foreign", x>>)
-                           \cup If(Range(o.nt) \subseteq Range(r.nA) /\ NoDup(o.nt) /\ ~OrderedIn(o.nt, r.nA), <<"success-notify-order", x>>)
-                           \cup If(~(r.xS \subseteq Range(xs)), <<"success-record-lost", x>>)
-                           \cup If(~(Range(xs) \subseteq r.xA /\ NoDup(xs)), <<"success-record-foreign", x>>))
-                \cup (IF Len(o.rd) # Len(r.rd) \/ \E j \in 1..Len(o.rd) : o.rd[j].id # r.rd[j].id
-                      THEN {<<"read-shape", x>>}
-                      ELSE UNION {IF o.rd[j].v \in r.rd[j].ok THEN {}
-                                  ELSE IF failed(TxOf(o.rd[j].v)) /\ TxOf(o.rd[j].v) # x THEN {<<"read-sees-failed-tx", x>>}
-                                  ELSE {<<"read-mismatch", x>>} : j \in 1..Len(o.rd)})
-    IN  IF Len(obs.txs) # n THEN {<<"shape", 0>>}
-        ELSE UNION {perTx(x) : x \in 1..n}
-             \cup If(~(\A id \in Range(obs.xh) : TxOf(id) \in 1..n), <<"foreign-record", 0>>)
-             \cup UNION {IF obs.ws[fk] \in Rf.poss[fk] THEN {}
-                         ELSE IF failed(TxOf(obs.ws[fk])) THEN {<<"failed-tx-write-kept", TxOf(obs.ws[fk])>>}
-                         ELSE {<<"writeset-mismatch", TxOf(obs.ws[fk])>>} : fk \in FullKeys}
-
 (* state machine ***********************************************************)
 None == [none |-> TRUE]
 WsOut(over) == {[c |-> fk[1], k |-> fk[2], v |-> over[fk]] : fk \in {f \in FullKeys : over[f] # NoEnt}}
@@ -265,7 +184,7 @@ Finish == /\ t = Len(blk) + 1
              IN /\ memo' = IF memo = None THEN d ELSE memo
                 /\ nondet' = (nondet \/ (memo # None /\ memo # d))
           /\ UNCHANGED <<blk, wall, run, ov, res>>
-          /\ (~EmitOn \/ run > 1 \/ PrintT(<<"ROW", ToJson(Row)>>))
+          /\ (IF EmitOn /\ run = 1 THEN PrintT(<<"ROW", ToJson(Row)>>) ELSE TRUE)
 \* the same block on the same prior state once more, under any wall-clock reading
 Again == /\ t = 0 /\ run < Runs
          /\ run' = run + 1 /\ wall' \in Clock
@@ -282,8 +201,6 @@ PropC15 == Violations15(blk, Executed, Store, wall, Obs(res, ov)) = {}
 OverlayClean == \A fk \in FullKeys : TxOf(ov[fk]) # 0 => res[TxOf(ov[fk])].ok
 \* The model has the code's bookkeeping, so with AllowCatch it deviates from PropC15 exactly where the code is expected to:
 \* a successful transaction that went on after a callee's failure has lost what it announced before the call.
-RECURSIVE HasCaughtFailure(_)
-HasCaughtFailure(s) == \E i \in 1..Len(s) : s[i].op = "call" /\ ((s[i].catch /\ Fails(s[i].sub)) \/ HasCaughtFailure(s[i].sub))
 PropC15ExceptCaught ==
     \A v \in Violations15(blk, Executed, Store, wall, Obs(res, ov)) :
         v[1] \in {"success-notify-lost", "success-record-lost"} /\ HasCaughtFailure(blk[v[2]])
